@@ -5,11 +5,19 @@
 //! that returns "the value handed to the caller"):
 //!   1. fault-free run under the seam, recording the N intercepted calls of the parent
 //!      and (for spawn) the calls the forked child makes between fork and exec;
-//!   2. for every index k and every errno of call k's menu (DESIGN.md Appendix C) a
-//!      re-run with call k failing (`close` really closes and then reports the error);
-//!      thorough tier: the full menus and every pair of deviations for scenarios with
-//!      at most 12 calls (the second deviation is enumerated on the log of the run
-//!      that already contains the first one).
+//!   2. for every index k and every alternative ANSWER of call k a re-run with call k
+//!      answering that way.  Alternative answers are (a) every errno of the call's menu
+//!      (DESIGN.md Appendix C; `close` really closes and then reports the error),
+//!      (b) ordinary non-error answers that steer a branch: `ppoll`/`epoll_pwait` = 0 (timed
+//!      out) when a timeout was passed, `connect` = EINPROGRESS/EAGAIN, `accept4` = EAGAIN,
+//!      socket `read`/`write` = EAGAIN, `read`/`getdents64`/`copy_file_range` = 0, short
+//!      counts, (c) OUT-PARAMETER values that steer a branch: ioctl(TIOCGPTN) index
+//!      {0,255,256,1000,u32::MAX}, stat size {0,2^40,-1} and mode {file,dir}, wait4 status,
+//!      getdents64 d_type = DT_UNKNOWN, io_uring_setup without FEAT_SINGLE_MMAP, the
+//!      8-byte exec-failure message on spawn's sync pipe.
+//!      Pairs of deviations (second one enumerated on the log of the run that already
+//!      contains the first): quick tier when the first one is a non-error answer
+//!      (b)/(c)/EAGAIN/EINPROGRESS/EINTR, thorough tier all pairs.
 //! Oracle per run: a shadow descriptor table built from the intercepted calls,
 //! cross-checked with /proc/self/fd before the operation, after it and after the
 //! returned value was dropped.
@@ -26,6 +34,8 @@ use std::sync::atomic::{AtomicI32, AtomicU32, Ordering};
 use sysx::{Call, Decision, Plan};
 
 pub static PARENT: AtomicI32 = AtomicI32::new(0);
+/// scenarios with at most this many parent-side calls get pairs of deviations
+const PAIR_BOUND: usize = 16;
 
 /// In a forked child that came back into harness code (a child-side failure makes
 /// `spawn` return in the child): leave at once, before anything is touched.
@@ -99,15 +109,6 @@ fn menu(nr: i64) -> (&'static [i32], usize) {
     }
 }
 
-fn errnos_for(nr: i64, thorough: bool) -> &'static [i32] {
-    let (m, q) = menu(nr);
-    if thorough {
-        m
-    } else {
-        &m[..q.min(m.len())]
-    }
-}
-
 fn errno_name(e: i32) -> String {
     use libc::*;
     let t: &[(i32, &str)] = &[
@@ -124,10 +125,180 @@ fn errno_name(e: i32) -> String {
 // lets the forked child report its calls through a shared page
 
 #[derive(Clone, Copy, Debug, PartialEq, Eq, Hash, PartialOrd, Ord)]
+pub enum OutKind {
+    /// ioctl(TIOCGPTN): the pty index written through the pointer
+    PtyNum,
+    /// stat family: st_size / st_mode of the filled buffer
+    StSize,
+    StMode,
+    /// wait4: the status word
+    WaitStatus,
+    /// getdents64: d_type of every returned record
+    DentsType,
+    /// io_uring_setup: IORING_FEAT_SINGLE_MMAP cleared in params.features (the legacy two-mmap layout)
+    UringNoSingleMmap,
+}
+#[derive(Clone, Copy, Debug, PartialEq, Eq, Hash, PartialOrd, Ord)]
+pub enum FillKind {
+    /// read(fd, buf, 8) = 8 with errno 2 + "NOEX": what the child sends when execve failed
+    ExecFailedMsg,
+    /// read(fd, buf, 8) = 8 with a wrong footer
+    BadFooterMsg,
+}
+/// One alternative answer of a call.
+#[derive(Clone, Copy, Debug, PartialEq, Eq, Hash, PartialOrd, Ord)]
+pub enum Ans {
+    /// fails with this errno (not executed; `close` is executed and then reports it)
+    Errno(i32),
+    /// not executed, answers this non-error value (0 = timed out / end of data, short count)
+    Ret(i64),
+    /// executed, then the value it wrote through its out-parameter is replaced
+    Out(OutKind, i64),
+    /// not executed, the harness fills the out-buffer and answers its length
+    Fill(FillKind),
+}
+impl Ans {
+    fn encode(&self) -> String {
+        match self {
+            Ans::Errno(e) => format!("errno:{e}"),
+            Ans::Ret(v) => format!("ret:{v}"),
+            Ans::Out(k, v) => format!("out:{k:?}:{v}"),
+            Ans::Fill(k) => format!("fill:{k:?}"),
+        }
+    }
+    fn decode(s: &str) -> Option<Ans> {
+        let mut it = s.split(':');
+        match it.next()? {
+            "errno" => Some(Ans::Errno(it.next()?.parse().ok()?)),
+            "ret" => Some(Ans::Ret(it.next()?.parse().ok()?)),
+            "out" => {
+                let k = match it.next()? {
+                    "PtyNum" => OutKind::PtyNum,
+                    "StSize" => OutKind::StSize,
+                    "StMode" => OutKind::StMode,
+                    "WaitStatus" => OutKind::WaitStatus,
+                    "DentsType" => OutKind::DentsType,
+                    "UringNoSingleMmap" => OutKind::UringNoSingleMmap,
+                    _ => return None,
+                };
+                Some(Ans::Out(k, it.next()?.parse().ok()?))
+            }
+            "fill" => Some(Ans::Fill(match it.next()? {
+                "ExecFailedMsg" => FillKind::ExecFailedMsg,
+                "BadFooterMsg" => FillKind::BadFooterMsg,
+                _ => return None,
+            })),
+            _ => None,
+        }
+    }
+    /// an ordinary answer rather than a failure (quick tier enumerates pairs that start with one)
+    fn soft(&self) -> bool {
+        match self {
+            Ans::Errno(e) => [libc::EAGAIN, libc::EINPROGRESS, libc::EINTR].contains(e),
+            _ => true,
+        }
+    }
+    /// how the deviation is named in a violation key (`...@<this>`), given the syscall's name
+    fn key_name(&self, sys: &str) -> String {
+        match self {
+            Ans::Errno(_) => sys.to_string(),
+            Ans::Ret(v) => format!("{sys}={v}"),
+            Ans::Out(k, _) => format!("{sys}:{k:?}"),
+            Ans::Fill(k) => format!("{sys}:{k:?}"),
+        }
+    }
+    fn describe(&self) -> String {
+        match self {
+            Ans::Errno(e) => format!("failing with {}", errno_name(*e)),
+            Ans::Ret(0) => "answering 0 (timed out / end of data)".to_string(),
+            Ans::Ret(v) => format!("answering {v}"),
+            Ans::Out(k, v) => format!("succeeding with out-parameter {k:?} = {v}"),
+            Ans::Fill(k) => format!("answering 8 bytes ({k:?})"),
+        }
+    }
+}
+
+#[derive(Clone, Copy, Debug, PartialEq, Eq, Hash, PartialOrd, Ord)]
 pub struct Fault {
     child: bool,
     k: usize,
-    errno: i32,
+    ans: Ans,
+}
+
+fn stat_buf(nr: i64, args: &[u64; 6]) -> u64 {
+    if nr == libc::SYS_newfstatat {
+        args[2]
+    } else {
+        args[1]
+    }
+}
+
+/// Every alternative answer of one parent-side call.
+fn deviations(c: &CallInfo) -> Vec<Ans> {
+    use libc::*;
+    let mut v: Vec<Ans> = menu(c.nr).0.iter().map(|e| Ans::Errno(*e)).collect();
+    let a = &c.args;
+    match c.nr {
+        SYS_ppoll => {
+            if a[2] != 0 {
+                v.push(Ans::Ret(0));
+            }
+        }
+        SYS_epoll_pwait | SYS_epoll_wait => {
+            if a[3] as i32 != -1 {
+                v.push(Ans::Ret(0));
+            }
+        }
+        SYS_read => {
+            v.push(Ans::Ret(0));
+            if c.sock {
+                v.push(Ans::Errno(EAGAIN));
+            }
+            if a[2] == 8 {
+                v.push(Ans::Fill(FillKind::ExecFailedMsg));
+                v.push(Ans::Fill(FillKind::BadFooterMsg));
+                v.push(Ans::Ret(4));
+            }
+        }
+        SYS_write => {
+            if c.sock {
+                v.push(Ans::Errno(EAGAIN));
+            }
+        }
+        SYS_ioctl => {
+            if a[1] == TIOCGPTN {
+                for x in [0i64, 255, 256, 1000, u32::MAX as i64] {
+                    v.push(Ans::Out(OutKind::PtyNum, x));
+                }
+            }
+        }
+        SYS_newfstatat | SYS_fstat | SYS_stat | SYS_lstat => {
+            for x in [0i64, 1 << 40, -1] {
+                v.push(Ans::Out(OutKind::StSize, x));
+            }
+            for x in [(S_IFREG | 0o644) as i64, (S_IFDIR | 0o755) as i64] {
+                v.push(Ans::Out(OutKind::StMode, x));
+            }
+        }
+        SYS_wait4 => {
+            if a[1] != 0 {
+                for x in [0i64, 256, 9] {
+                    v.push(Ans::Out(OutKind::WaitStatus, x));
+                }
+            }
+        }
+        SYS_getdents64 => {
+            v.push(Ans::Ret(0));
+            v.push(Ans::Out(OutKind::DentsType, DT_UNKNOWN as i64));
+        }
+        SYS_io_uring_setup => v.push(Ans::Out(OutKind::UringNoSingleMmap, 0)),
+        SYS_copy_file_range => {
+            v.push(Ans::Ret(0));
+            v.push(Ans::Ret(1));
+        }
+        _ => {}
+    }
+    v
 }
 
 const CHILD_CAP: usize = 96;
@@ -166,11 +337,13 @@ struct FdPlan {
     /// every `close` really closes and then reports this errno (drop phase)
     close_err: Option<i32>,
     pairs: HashMap<usize, [i32; 2]>,
+    /// parent-side read/write calls whose descriptor is a socket
+    sock: HashSet<usize>,
     shared: *mut Shared,
 }
 
 impl Plan for FdPlan {
-    fn decide(&mut self, idx: usize, nr: i64, _args: &[u64; 6]) -> Decision {
+    fn decide(&mut self, idx: usize, nr: i64, args: &[u64; 6]) -> Decision {
         let child = unsafe { libc::getpid() } != self.parent;
         if child && !self.shared.is_null() {
             // recorded before the call is answered: a successful execve never comes back
@@ -185,7 +358,30 @@ impl Plan for FdPlan {
         for (i, f) in self.faults.iter().enumerate() {
             if f.child == child && f.k == idx {
                 self.hit[i] = true;
-                return if nr == libc::SYS_close { Decision::PassThenForce(-(f.errno as i64)) } else { Decision::Force(-(f.errno as i64)) };
+                return match f.ans {
+                    Ans::Errno(e) if nr == libc::SYS_close => Decision::PassThenForce(-(e as i64)),
+                    Ans::Errno(e) => Decision::Force(-(e as i64)),
+                    Ans::Ret(v) => Decision::Force(v),
+                    Ans::Out(..) => Decision::Pass, // patched in `after`
+                    Ans::Fill(kind) => {
+                        let msg: [u8; 8] = match kind {
+                            FillKind::ExecFailedMsg => [0, 0, 0, 2, b'N', b'O', b'E', b'X'],
+                            FillKind::BadFooterMsg => [0, 0, 0, 2, b'n', b'o', b'p', b'e'],
+                        };
+                        if args[1] != 0 && args[2] >= 8 {
+                            unsafe { std::ptr::copy_nonoverlapping(msg.as_ptr(), args[1] as *mut u8, 8) };
+                        }
+                        Decision::Force(8)
+                    }
+                };
+            }
+        }
+        if !child && (nr == libc::SYS_read || nr == libc::SYS_write) {
+            unsafe {
+                let mut st: libc::stat = std::mem::zeroed();
+                if libc::fstat(args[0] as i32, &mut st) == 0 && (st.st_mode & libc::S_IFMT) == libc::S_IFSOCK {
+                    self.sock.insert(idx);
+                }
             }
         }
         if nr == libc::SYS_close && !child {
@@ -198,6 +394,60 @@ impl Plan for FdPlan {
     fn after(&mut self, idx: usize, c: &Call) {
         if c.pid != self.parent {
             return;
+        }
+        for f in &self.faults {
+            if f.child || f.k != idx {
+                continue;
+            }
+            let Ans::Out(kind, v) = f.ans else { continue };
+            let Some(real) = c.real else { continue };
+            if real < 0 {
+                continue;
+            }
+            unsafe {
+                match kind {
+                    OutKind::PtyNum => {
+                        if c.args[2] != 0 {
+                            (c.args[2] as *mut u32).write_unaligned(v as u32);
+                        }
+                    }
+                    OutKind::StSize => {
+                        let b = stat_buf(c.nr, &c.args);
+                        if b != 0 {
+                            ((b + 48) as *mut i64).write_unaligned(v);
+                        }
+                    }
+                    OutKind::StMode => {
+                        let b = stat_buf(c.nr, &c.args);
+                        if b != 0 {
+                            ((b + 24) as *mut u32).write_unaligned(v as u32);
+                        }
+                    }
+                    OutKind::WaitStatus => {
+                        if c.args[1] != 0 && real > 0 {
+                            (c.args[1] as *mut i32).write_unaligned(v as i32);
+                        }
+                    }
+                    OutKind::DentsType => {
+                        let (base, n) = (c.args[1], real as u64);
+                        let mut off = 0u64;
+                        while off + 19 <= n {
+                            let reclen = ((base + off + 16) as *const u16).read_unaligned() as u64;
+                            ((base + off + 18) as *mut u8).write(v as u8);
+                            if reclen == 0 {
+                                break;
+                            }
+                            off += reclen;
+                        }
+                    }
+                    OutKind::UringNoSingleMmap => {
+                        if c.args[1] != 0 {
+                            let p = (c.args[1] + 20) as *mut u32;
+                            p.write_unaligned(p.read_unaligned() & !1);
+                        }
+                    }
+                }
+            }
         }
         if c.real == Some(0) && (c.nr == libc::SYS_pipe2 || c.nr == libc::SYS_pipe || c.nr == libc::SYS_socketpair) {
             let p = if c.nr == libc::SYS_socketpair { c.args[3] } else { c.args[0] } as *const i32;
@@ -341,11 +591,19 @@ fn generic_label(sc: &str, ordinal: usize, sub: usize, total: usize) -> String {
 // ---------------------------------------------------------------------------
 // one case
 
+#[derive(Clone, Copy, Debug)]
+pub struct CallInfo {
+    nr: i64,
+    args: [u64; 6],
+    /// read/write on a socket
+    sock: bool,
+}
+
 #[derive(Default, Clone)]
 struct CaseOut {
     class: String,
-    /// syscall numbers of the parent's calls during the operation
-    parent_calls: Vec<i64>,
+    /// the parent's calls during the operation
+    parent_calls: Vec<CallInfo>,
     /// (index in the child's numbering, syscall number) of the forked child's calls
     child_calls: Vec<(usize, i64)>,
     fork_idx: Option<usize>,
@@ -361,8 +619,8 @@ struct Ctx<'a> {
     base_totals: Option<&'a HashMap<&'static str, usize>>,
     /// what each single deviation leaked (to blame the right call of a pair)
     single_leaks: Option<&'a HashMap<Fault, BTreeSet<String>>>,
-    /// the same by (failing syscall, errno): an earlier tolerated deviation can shift the index of the second one
-    single_leaks_by_name: Option<&'a HashMap<(String, i32), BTreeSet<String>>>,
+    /// the same by (failing syscall, answer): an earlier tolerated deviation can shift the index of the second one
+    single_leaks_by_name: Option<&'a HashMap<(String, Ans), BTreeSet<String>>>,
     verbose: bool,
 }
 
@@ -375,7 +633,8 @@ fn case_json(name: &str, faults: &[Fault], drop_close: Option<i32>) -> Value {
         "op": name,
         "scenario": name,
         "k": faults.iter().map(|f| f.k).collect::<Vec<_>>(),
-        "errno": faults.iter().map(|f| f.errno).collect::<Vec<_>>(),
+        "errno": faults.iter().map(|f| if let Ans::Errno(e) = f.ans { json!(e) } else { Value::Null }).collect::<Vec<_>>(),
+        "answer": faults.iter().map(|f| f.ans.encode()).collect::<Vec<_>>(),
         "child": faults.iter().map(|f| f.child).collect::<Vec<_>>(),
         "drop_close_errno": drop_close,
     })
@@ -415,7 +674,7 @@ fn run_case(s: &mut Scn, env: &mut Env, faults: &[Fault], drop_close: Option<i32
     let parent = PARENT.load(Ordering::Relaxed);
     let given = env.given.clone();
     let before = fd_map();
-    let mut plan = FdPlan { parent, faults: faults.to_vec(), hit: vec![false; faults.len()], close_err: None, pairs: HashMap::new(), shared: cx.shared };
+    let mut plan = FdPlan { parent, faults: faults.to_vec(), hit: vec![false; faults.len()], close_err: None, pairs: HashMap::new(), sock: HashSet::new(), shared: cx.shared };
     // ---- phase A: the operation
     let (res, log_a) = sysx::run(&mut plan, || {
         let x = catch(|| {
@@ -429,6 +688,7 @@ fn run_case(s: &mut Scn, env: &mut Env, faults: &[Fault], drop_close: Option<i32
     child_guard();
     let after_a = fd_map();
     let pairs_a = std::mem::take(&mut plan.pairs);
+    let sock_idx = std::mem::take(&mut plan.sock);
     let hit = plan.hit.clone();
     let mut sh = Shadow::new(&before, &given);
     for (i, c) in log_a.iter().enumerate() {
@@ -456,7 +716,7 @@ fn run_case(s: &mut Scn, env: &mut Env, faults: &[Fault], drop_close: Option<i32
             .iter()
             .map(|f| {
                 let nr = if f.child { kinds.iter().find(|c| c.0 == f.k).map(|c| c.1) } else { log_a.get(f.k).map(|c| c.nr) };
-                format!("{}call #{} ({}) failing with {}", if f.child { "child-side " } else { "" }, f.k, nr.map(sysx::name).unwrap_or("?"), errno_name(f.errno))
+                format!("{}call #{} ({}) {}", if f.child { "child-side " } else { "" }, f.k, nr.map(sysx::name).unwrap_or("?"), f.ans.describe())
             })
             .collect::<Vec<_>>()
             .join(" and ")
@@ -486,7 +746,7 @@ fn run_case(s: &mut Scn, env: &mut Env, faults: &[Fault], drop_close: Option<i32
     }
 
     // ---- phase B: drop the returned value under the seam
-    let mut plan_b = FdPlan { parent, faults: vec![], hit: vec![], close_err: drop_close, pairs: HashMap::new(), shared: std::ptr::null_mut() };
+    let mut plan_b = FdPlan { parent, faults: vec![], hit: vec![], close_err: drop_close, pairs: HashMap::new(), sock: HashSet::new(), shared: std::ptr::null_mut() };
     let (dres, log_b) = sysx::run(&mut plan_b, || catch(move || drop(held)));
     let after_b = fd_map();
 
@@ -511,7 +771,7 @@ fn run_case(s: &mut Scn, env: &mut Env, faults: &[Fault], drop_close: Option<i32
         if f.child {
             format!("child-{}", child_calls.iter().find(|c| c.0 == f.k).map(|c| sysx::name(c.1)).unwrap_or("?"))
         } else {
-            log_a.get(f.k).map(|c| sysx::name(c.nr)).unwrap_or("?").to_string()
+            f.ans.key_name(log_a.get(f.k).map(|c| sysx::name(c.nr)).unwrap_or("?"))
         }
     };
     let blame = |which: &str| -> String {
@@ -528,7 +788,7 @@ fn run_case(s: &mut Scn, env: &mut Env, faults: &[Fault], drop_close: Option<i32
         }
         if let Some(sl) = cx.single_leaks_by_name {
             for f in faults {
-                if sl.get(&(fault_name(f), f.errno)).map(|l| l.contains(which)).unwrap_or(false) {
+                if sl.get(&(fault_name(f), f.ans)).map(|l| l.contains(which)).unwrap_or(false) {
                     return fault_name(f);
                 }
             }
@@ -538,7 +798,7 @@ fn run_case(s: &mut Scn, env: &mut Env, faults: &[Fault], drop_close: Option<i32
     let ctxt = if faults.is_empty() { "fault-free run".to_string() } else { fdesc.clone() };
 
     let mut out = CaseOut { totals: totals.clone(), fork_idx, ..Default::default() };
-    out.parent_calls = log_a.iter().map(|c| c.nr).collect();
+    out.parent_calls = log_a.iter().enumerate().map(|(i, c)| CallInfo { nr: c.nr, args: c.args, sock: sock_idx.contains(&i) }).collect();
     out.child_calls = child_calls.clone();
     out.fault_names = faults.iter().map(&fault_name).collect();
 
@@ -710,21 +970,22 @@ fn run_case(s: &mut Scn, env: &mut Env, faults: &[Fault], drop_close: Option<i32
 // ---------------------------------------------------------------------------
 // enumeration per scenario
 
-fn points(o: &CaseOut, thorough: bool) -> Vec<Fault> {
+fn points(o: &CaseOut) -> Vec<Fault> {
     let mut v = Vec::new();
-    for (k, nr) in o.parent_calls.iter().enumerate() {
-        for e in errnos_for(*nr, thorough) {
-            v.push(Fault { child: false, k, errno: *e });
+    for (k, c) in o.parent_calls.iter().enumerate() {
+        for a in deviations(c) {
+            v.push(Fault { child: false, k, ans: a });
         }
     }
     for (k, nr) in &o.child_calls {
         if *nr == libc::SYS_fork {
             continue;
         }
-        for e in errnos_for(*nr, thorough) {
-            v.push(Fault { child: true, k: *k, errno: *e });
+        for e in menu(*nr).0 {
+            v.push(Fault { child: true, k: *k, ans: Ans::Errno(*e) });
         }
     }
+    v.dedup();
     v
 }
 
@@ -757,21 +1018,21 @@ fn run_scenario(mut s: Scn, thorough: bool) -> Report {
     let cx = Ctx { shared, base_leaks: Some(&base_leaks), base_totals: Some(&base_totals), single_leaks: None, single_leaks_by_name: None, verbose: false };
     let n = base.parent_calls.len();
     r.bound(&format!("calls[{name}]"), json!({"parent": n, "child": base.child_calls.iter().filter(|c| c.1 != libc::SYS_fork).count()}));
-    for nr in base.parent_calls.iter().chain(base.child_calls.iter().map(|c| &c.1)) {
+    for nr in base.parent_calls.iter().map(|c| &c.nr).chain(base.child_calls.iter().map(|c| &c.1)) {
         if menu(*nr).0.is_empty() && !matches!(*nr, libc::SYS_exit | libc::SYS_exit_group | libc::SYS_munmap | libc::SYS_uname | libc::SYS_fork) {
             r.note(format!("{name}: no errno menu for {} — call not failed", sysx::name(*nr)));
         }
     }
-    r.sample(json!({"scenario": name, "fault_free_calls": base.parent_calls.iter().map(|n| sysx::name(*n)).collect::<Vec<_>>(),
+    r.sample(json!({"scenario": name, "fault_free_calls": base.parent_calls.iter().map(|c| sysx::name(c.nr)).collect::<Vec<_>>(),
         "child_calls": base.child_calls.iter().map(|c| sysx::name(c.1)).collect::<Vec<_>>(), "class": base.class}));
     // drop with every close reporting an error after really closing
     run_case(&mut s, &mut env, &[], Some(libc::EIO), &mut r, &cx);
     let mut seen: HashSet<Vec<Fault>> = HashSet::new();
-    let singles = points(&base, thorough);
-    let do_pairs = thorough && n <= 12;
+    let singles = points(&base);
+    let do_pairs = n <= PAIR_BOUND;
     let mut single_out: Vec<(Fault, CaseOut)> = Vec::new();
     let mut single_leaks: HashMap<Fault, BTreeSet<String>> = HashMap::new();
-    let mut single_by_name: HashMap<(String, i32), BTreeSet<String>> = HashMap::new();
+    let mut single_by_name: HashMap<(String, Ans), BTreeSet<String>> = HashMap::new();
     for f1 in &singles {
         let fs = vec![*f1];
         if !seen.insert(fs.clone()) {
@@ -779,13 +1040,17 @@ fn run_scenario(mut s: Scn, thorough: bool) -> Report {
         }
         let o1 = run_case(&mut s, &mut env, &fs, None, &mut r, &cx);
         single_leaks.insert(*f1, o1.leaked.clone());
-        single_by_name.entry((o1.fault_names[0].clone(), f1.errno)).or_default().extend(o1.leaked.iter().cloned());
+        single_by_name.entry((o1.fault_names[0].clone(), f1.ans)).or_default().extend(o1.leaked.iter().cloned());
         single_out.push((*f1, o1));
     }
     if do_pairs {
         let cx2 = Ctx { shared, base_leaks: Some(&base_leaks), base_totals: Some(&base_totals), single_leaks: Some(&single_leaks), single_leaks_by_name: Some(&single_by_name), verbose: false };
         for (f1, o1) in &single_out {
-            for f2 in points(o1, true) {
+            // quick tier: only pairs that start with an ordinary (non-error) answer
+            if !thorough && !f1.ans.soft() {
+                continue;
+            }
+            for f2 in points(o1) {
                 // strictly later than the first deviation on the same side; on the other side only what runs after the fork
                 let later = if f2.child == f1.child {
                     f2.k > f1.k
@@ -826,13 +1091,15 @@ fn c12(args: &Args) -> Report {
     let mut r = run_isolated(items, &args.out, "C12");
     r.rule = format!(
         "{} scenarios (public operations of fs/net/process/epoll/openpty/passwd/random/get_pass/io_uring that create descriptors, incl. invalid-argument variants), one forked shard each; \
-         per scenario: the fault-free run, one run whose drop sees every close report EIO, and one run per (call index k of the fault-free log, parent side and forked-child side) x (errno of that call's menu; \
-         quick: first errno of the class, two for accept4/connect; thorough: the whole menu, plus every pair of deviations for scenarios with <= 12 parent calls, the second one enumerated on the log of the run containing the first). \
+         per scenario: the fault-free run, one run whose drop sees every close report EIO, and one run per (call index k of the fault-free log, parent side and forked-child side) x (alternative answer of that call: every errno of its menu; \
+         non-error answers that steer a branch — ppoll/epoll_pwait = 0 when a timeout was passed, connect = EINPROGRESS/EAGAIN, accept4 = EAGAIN, socket read/write = EAGAIN, read/getdents64/copy_file_range = 0, short counts; \
+         out-parameter values — ioctl(TIOCGPTN) index 0/255/256/1000/u32::MAX, stat size 0/2^40/-1 and mode file/dir, wait4 status 0/256/9, getdents64 d_type=DT_UNKNOWN, io_uring_setup without FEAT_SINGLE_MMAP, spawn's 8-byte sync-pipe message); \
+         pairs of deviations for scenarios with <= 16 parent calls, the second one enumerated on the log of the run containing the first (quick: pairs whose first member is a non-error answer incl. EAGAIN/EINPROGRESS/EINTR; thorough: all pairs). \
          close is executed and then reports the error. Each (scenario, deviation set) is generated once. Oracle: shadow descriptor table from the call log, cross-checked with /proc/self/fd before / after the operation / after dropping the returned value.",
         names.len()
     );
     r.bound("scenarios", names.len());
-    r.bound("pairs_for_calls_le", 12);
+    r.bound("pairs_for_calls_le", PAIR_BOUND);
     r.bound("tier", if thorough { "thorough" } else { "quick" });
     r
 }
@@ -844,9 +1111,18 @@ fn replay(v: &Value) -> Report {
         std::process::exit(2);
     };
     let ks: Vec<usize> = v["k"].as_array().map(|a| a.iter().filter_map(|x| x.as_u64().map(|x| x as usize)).collect()).unwrap_or_default();
-    let es: Vec<i32> = v["errno"].as_array().map(|a| a.iter().filter_map(|x| x.as_i64().map(|x| x as i32)).collect()).unwrap_or_default();
+    let es: Vec<i32> = v["errno"].as_array().map(|a| a.iter().map(|x| x.as_i64().map(|x| x as i32).unwrap_or(libc::EIO)).collect()).unwrap_or_default();
     let cs: Vec<bool> = v["child"].as_array().map(|a| a.iter().map(|x| x.as_bool().unwrap_or(false)).collect()).unwrap_or_default();
-    let faults: Vec<Fault> = ks.iter().enumerate().map(|(i, k)| Fault { child: cs.get(i).copied().unwrap_or(false), k: *k, errno: es.get(i).copied().unwrap_or(libc::EIO) }).collect();
+    let answers: Vec<Option<Ans>> = v["answer"].as_array().map(|a| a.iter().map(|x| x.as_str().and_then(Ans::decode)).collect()).unwrap_or_default();
+    let faults: Vec<Fault> = ks
+        .iter()
+        .enumerate()
+        .map(|(i, k)| Fault {
+            child: cs.get(i).copied().unwrap_or(false),
+            k: *k,
+            ans: answers.get(i).copied().flatten().unwrap_or_else(|| Ans::Errno(es.get(i).copied().unwrap_or(libc::EIO))),
+        })
+        .collect();
     let drop_close = v["drop_close_errno"].as_i64().map(|x| x as i32);
     shard_setup();
     let mut env = Env::new(&s.name);
@@ -863,13 +1139,13 @@ fn replay(v: &Value) -> Report {
     } else {
         // for a pair: what each deviation leaks on its own decides which call the key blames
         let mut single_leaks: HashMap<Fault, BTreeSet<String>> = HashMap::new();
-        let mut by_name: HashMap<(String, i32), BTreeSet<String>> = HashMap::new();
+        let mut by_name: HashMap<(String, Ans), BTreeSet<String>> = HashMap::new();
         if faults.len() > 1 {
             let cxs = Ctx { shared, base_leaks: Some(&base.leaked), base_totals: Some(&base.totals), single_leaks: None, single_leaks_by_name: None, verbose: false };
             for f in &faults {
                 let o = run_case(&mut s, &mut env, &[*f], None, &mut scratch, &cxs);
                 single_leaks.insert(*f, o.leaked.clone());
-                by_name.entry((o.fault_names[0].clone(), f.errno)).or_default().extend(o.leaked.iter().cloned());
+                by_name.entry((o.fault_names[0].clone(), f.ans)).or_default().extend(o.leaked.iter().cloned());
             }
         }
         let cx = Ctx { shared, base_leaks: Some(&base.leaked), base_totals: Some(&base.totals), single_leaks: Some(&single_leaks), single_leaks_by_name: Some(&by_name), verbose: true };
